@@ -25,11 +25,11 @@ var alphaName = []string{"a", "b", "SP", "-", "LF", "CRLF", "世", "é", "TAB"}
 const maxWidth = 9
 
 type detail struct {
-	Input string `json:"input"`
-	Width int    `json:"width"`
-	Kind  string `json:"scanner"`
+	Input string   `json:"input"`
+	Width int      `json:"width"`
+	Kind  string   `json:"scanner"`
 	Lines []string `json:"lines,omitempty"`
-	Why   string `json:"why"`
+	Why   string   `json:"why"`
 }
 
 func ctx(w, h uint16) vxfw.DrawContext {
@@ -229,8 +229,11 @@ func plainCase(s string, width int) {
 	}
 	r.Distinct(explore.Hash("p", fmt.Sprint(width), strings.Join(lineStrings(lines), "\x00")))
 	// widget rows == scanner lines
-	for _, h := range []uint16{1, 2, 65535} {
-		t := text.New(s)
+	// one widget instance for all frames, and an earlier frame at another width: whatever the widget
+	// remembers between frames must not show in the next one
+	t := text.New(s)
+	t.Draw(ctx(uint16(width)+1, 65535))
+	for _, h := range []uint16{65535, 1, 2, 65535} {
 		surf, err := t.Draw(ctx(uint16(width), h))
 		if err != nil {
 			report("text.Draw", s, width, lines, "draw|error "+err.Error())
@@ -381,8 +384,9 @@ func richCase(s string, width int, pattern uint) {
 		for _, g := range in {
 			segs = append(segs, vaxis.Segment{Text: g.g, Style: styles[g.style]})
 		}
-		for _, h := range []uint16{1, 65535} {
-			rt := richtext.New(segs)
+		rt := richtext.New(segs)
+		rt.Draw(ctx(uint16(width)+1, 65535))
+		for _, h := range []uint16{65535, 1, 65535} {
 			surf, err := rt.Draw(ctx(uint16(width), h))
 			if err != nil {
 				report("richtext.Draw", s, width, lines, "draw|error")
@@ -470,7 +474,7 @@ func main() {
 		Transitions: r.Get("plain_scans") + r.Get("rich_scans"),
 		Traces:      cases,
 		Evaluations: cases,
-		Rule: "every string of <= n symbols over {a,b,SP,-,LF,CRLF,世,e+U+0301,TAB} x width 0..9, plain scanner + Text.Draw at heights {1,2,unbounded}; rich scanner with every 2-colouring (<=4 graphemes) or 3 colour patterns, hard-wrap scanner, RichText.Draw; distinct = distinct (width, emitted line list) outcomes that passed all clauses",
+		Rule:        "every string of <= n symbols over {a,b,SP,-,LF,CRLF,世,e+U+0301,TAB} x width 0..9, plain scanner + Text.Draw at heights {unbounded,1,2,unbounded} on one widget instance that was first drawn at width+1; rich scanner with every 2-colouring (<=4 graphemes) or 3 colour patterns, hard-wrap scanner, RichText.Draw (one instance, first drawn at width+1); distinct = distinct (width, emitted line list) outcomes that passed all clauses",
 		Exhaustive:  true,
 		Bounds:      map[string]any{"max_len_symbols": maxLen, "alphabet": alphaName, "widths": "0..9"},
 		Assumptions: []string{"grapheme widths are those of uniseg (vaxis.Characters)", "letters = alphabetic non-ideographic graphemes; a break between ideographs is legitimate (UAX #14)"},
